@@ -4,6 +4,7 @@
 #include "launch/run.h"
 #include "PsConfig.h"
 #include "line_util.h"
+#include "verif_hook.h"
 
 extern std::string psfilename;
 extern bool REPLMode;
@@ -26,7 +27,14 @@ bool startREPL() {
     Parser parser;
     auto globalCtx = PSC::Context::createGlobalContext();
 
+#ifdef PSEUDOENGINE2_VERIF
+    bool verifFirstEntry = true;
+#endif
     while (true) {
+#ifdef PSEUDOENGINE2_VERIF
+        if (!verifFirstEntry) verif::replMarker();
+        verifFirstEntry = false;
+#endif
         std::string code;
         if (!getLine(code, "> ")) break;
 
